@@ -1,11 +1,12 @@
 /-
 Lemmas/RelocCheck.lean — relocation (C18-R1), part 10: executable (Bool) versions of the statement classes
-`Unmoved` / `Moved`, sound with respect to the Prop-valued definitions, and the statement list that enters
+`Unmoved` / `Moved` / `MovedMod` / `MovedNeg`, sound with respect to the Prop-valued definitions, and the statement list that enters
 `fixAll` (`stage4`) as a function of the source lines.  Used to show by evaluation that every statement of a
 concrete program is in one of the two classes.
 -/
 import CoCoVerif.Lemmas.RelocSigned
 import CoCoVerif.Lemmas.RelocMod
+import CoCoVerif.Lemmas.RelocNeg
 import CoCoVerif.Lemmas.RelocParse
 
 namespace CoCo.Asm
@@ -40,10 +41,18 @@ theorem boundB_sound {D : Nat} {o : Outcome Value} (h : boundB D o = true) :
   · rename_i hne
     exact absurd rfl (hne v)
 
+def labelSideB (l r : Value) (op : Char) : Bool := l.isAddress || (r.isAddress && op == '+')
+
+theorem labelSideB_sound {l r : Value} {op : Char} (h : labelSideB l r op = true) : LabelSide l r op := by
+  unfold labelSideB at h
+  simp only [Bool.or_eq_true, Bool.and_eq_true, beq_iff_eq] at h
+  exact h
+
 def numExprB (D : Nat) (as : List Stmt) (e : Value) : Bool :=
   match e with
   | .expr l r op _ true =>
-    isNumericV (if l.isAddress then r else l) && (op == '+' || op == '-') && boundB D (addrOffset as e)
+    isNumericV (if l.isAddress then r else l) && (op == '+' || op == '-') && labelSideB l r op &&
+      boundB D (addrOffset as e)
   | _ => false
 
 theorem numExprB_sound {D : Nat} {as : List Stmt} {e : Value} (h : numExprB D as e = true) : NumExpr D as e := by
@@ -51,9 +60,9 @@ theorem numExprB_sound {D : Nat} {as : List Stmt} {e : Value} (h : numExprB D as
   split at h
   · rename_i l r op m
     simp only [Bool.and_eq_true, Bool.or_eq_true, beq_iff_eq] at h
-    obtain ⟨⟨h1, h2⟩, h3⟩ := h
+    obtain ⟨⟨⟨h1, h2⟩, hs⟩, h3⟩ := h
     obtain ⟨k, hh, mm, nn, hk⟩ := isNumericV_eq h1
-    exact ⟨l, r, op, m, k, hh, mm, nn, rfl, hk, h2, boundB_sound h3⟩
+    exact ⟨l, r, op, m, k, hh, mm, nn, rfl, hk, h2, labelSideB_sound hs, boundB_sound h3⟩
   · cases h
 
 def diffExprB (e : Value) : Bool :=
@@ -89,10 +98,59 @@ def isAddressV : Value → Bool
   | .address _ _ => true
   | _ => false
 
+/-- `ModBound`, executable -/
+def modBoundB (D : Nat) (op : Char) (a k : Nat) (nn : Bool) : Bool :=
+  (op == '+' && decide ((a : Int) + signedK k nn + D ≤ 65535)) ||
+  (op == '-' && decide ((a : Int) - signedK k nn + D ≤ 65535))
+
+theorem modBoundB_sound {D : Nat} {op : Char} {a k : Nat} {nn : Bool} (h : modBoundB D op a k nn = true) :
+    ModBound D op a k nn := by
+  unfold modBoundB at h
+  simp only [Bool.or_eq_true, Bool.and_eq_true, beq_iff_eq, decide_eq_true_eq] at h
+  exact h
+
+def modExprB (D : Nat) (as : List Stmt) (e : Value) : Bool :=
+  match e with
+  | .expr l r op _ true =>
+    (match (if l.isAddress then r else l), (if l.isAddress then l.int? else r.int?) with
+     | .numeric k _ _ nn, some t =>
+       (match addrIntOf as t with
+        | some a => labelSideB l r op && modBoundB D op a k nn
+        | none => false)
+     | _, _ => false)
+  | _ => false
+
+theorem modExprB_sound {D : Nat} {as : List Stmt} {e : Value} (he : modExprB D as e = true) : ModExpr D as e := by
+  unfold modExprB at he
+  split at he
+  · rename_i l r op m
+    split at he
+    · rename_i k hh mm nn t ho hi
+      split at he
+      · rename_i a ha
+        simp only [Bool.and_eq_true] at he
+        exact ⟨l, r, op, m, t, a, k, nn, rfl, ⟨⟨hh, mm, ho⟩, labelSideB_sound he.1, hi, ha⟩, modBoundB_sound he.2⟩
+      · cases he
+    · cases he
+  · cases he
+
+def targetMovesB (D : Nat) (as : List Stmt) (s : Stmt) : Bool :=
+  !s.isIdx || !s.pkg.additional.isAddrExpr || (s.isIdx && numExprB D as s.pkg.additional)
+
+theorem targetMovesB_sound {D : Nat} {as : List Stmt} {s : Stmt} (h : targetMovesB D as s = true) :
+    TargetMoves D as s := by
+  unfold targetMovesB at h
+  simp only [Bool.or_eq_true, Bool.and_eq_true, Bool.not_eq_true'] at h
+  rcases h with (h | h) | ⟨h1, h2⟩
+  · exact .inl h
+  · exact .inr (.inl h)
+  · exact .inr (.inr ⟨h1, numExprB_sound h2⟩)
+
 def unmovedB (D : Nat) (as : List Stmt) (s : Stmt) : Bool :=
   (s.operand.kind == .relative) ||
   (!(s.operand.kind == .relative) && !s.operand.value.isAddrExpr && !s.operand.value.isAddress &&
-    (!s.pkg.needsRes || !s.isIdx || !s.pkg.additional.isAddrExpr || (s.isIdx && numExprB D as s.pkg.additional))) ||
+    (!s.pkg.needsRes ||
+      (!s.pkg.choices.isEmpty && (targetMovesB D as s || (s.isIdx && modExprB D as s.pkg.additional))))) ||
   (!(s.operand.kind == .relative) && !s.pkg.needsRes && diffExprB s.operand.value)
 
 theorem unmovedB_sound {D : Nat} {as : List Stmt} {s : Stmt} (h : unmovedB D as s = true) : Unmoved D as s := by
@@ -101,19 +159,18 @@ theorem unmovedB_sound {D : Nat} {as : List Stmt} {s : Stmt} (h : unmovedB D as 
   rcases h with (h | ⟨⟨⟨hk, hE⟩, hA⟩, hr⟩) | ⟨⟨hk, hn⟩, hd⟩
   · exact .inl h
   · refine .inr (.inl ⟨by simpa using hk, hE, hA, ?_⟩)
-    rcases hr with ((hr | hr) | hr) | ⟨h1, h2⟩
+    rcases hr with hr | ⟨hc, hr | ⟨hidx, hr⟩⟩
     · exact .inl hr
-    · exact .inr (.inl hr)
-    · exact .inr (.inr (.inl hr))
-    · exact .inr (.inr (.inr ⟨h1, numExprB_sound h2⟩))
+    · exact .inr ⟨hc, .inl (targetMovesB_sound hr)⟩
+    · exact .inr ⟨hc, .inr ⟨hidx, modExprB_sound hr⟩⟩
   · exact .inr (.inr ⟨by simpa using hk, hn, diffExprB_sound hd⟩)
 
-def movedB (D : Nat) (as : List Stmt) (s : Stmt) : Bool :=
+def movedRefB (D : Nat) (as : List Stmt) (s : Stmt) : Bool :=
   !(s.operand.kind == .relative) && !s.pkg.needsRes &&
   (isAddressV s.operand.value || numExprB D as s.operand.value) && fieldWideB s
 
-theorem movedB_sound {D : Nat} {as : List Stmt} {s : Stmt} (h : movedB D as s = true) : Moved D as s := by
-  unfold movedB at h
+theorem movedRefB_sound {D : Nat} {as : List Stmt} {s : Stmt} (h : movedRefB D as s = true) : MovedRef D as s := by
+  unfold movedRefB at h
   simp only [Bool.or_eq_true, Bool.and_eq_true, Bool.not_eq_true'] at h
   obtain ⟨⟨⟨hk, hn⟩, hv⟩, hf⟩ := h
   refine ⟨hk, hn, ?_, fieldWideB_sound hf⟩
@@ -121,6 +178,25 @@ theorem movedB_sound {D : Nat} {as : List Stmt} {s : Stmt} (h : movedB D as s = 
   · left
     cases hx : s.operand.value <;> rw [hx] at hv <;> first | exact ⟨_, _, rfl⟩ | cases hv
   · exact .inr (numExprB_sound hv)
+
+/-- (repair batch B3) a label or `label ± k` as constant offset of a pointer register -/
+def movedAbsB (D : Nat) (as : List Stmt) (s : Stmt) : Bool :=
+  !(s.operand.kind == .relative) && !s.operand.value.isAddrExpr && !s.operand.value.isAddress &&
+  s.pkg.needsRes && s.pkg.choices.isEmpty && targetMovesB D as s && fieldWideB s
+
+theorem movedAbsB_sound {D : Nat} {as : List Stmt} {s : Stmt} (h : movedAbsB D as s = true) : MovedAbs D as s := by
+  unfold movedAbsB at h
+  simp only [Bool.and_eq_true, Bool.not_eq_true'] at h
+  obtain ⟨⟨⟨⟨⟨⟨hk, hE⟩, hA⟩, hn⟩, hc⟩, hr⟩, hf⟩ := h
+  exact ⟨hk, hE, hA, hn, hc, targetMovesB_sound hr, fieldWideB_sound hf⟩
+
+def movedB (D : Nat) (as : List Stmt) (s : Stmt) : Bool := movedRefB D as s || movedAbsB D as s
+
+theorem movedB_sound {D : Nat} {as : List Stmt} {s : Stmt} (h : movedB D as s = true) : Moved D as s := by
+  unfold movedB at h
+  rcases Bool.or_eq_true _ _ |>.mp h with h | h
+  · exact .inl (movedRefB_sound h)
+  · exact .inr (movedAbsB_sound h)
 
 /-- every statement of the list is in one of the two classes -/
 def coverB (D : Nat) (as : List Stmt) : Bool := as.all (fun s => unmovedB D as s || movedB D as s)
@@ -151,43 +227,43 @@ theorem field4B_sound {s : Stmt} (h : field4B s = true) : Field4 s := by
     exact ⟨a, b, ha, hb, by simpa using h2⟩
   · cases h2
 
-/-- the arithmetic condition of `MovedMod` on the expression `e` -/
-def modExprB (D : Nat) (as : List Stmt) (e : Value) : Bool :=
-  match e with
-  | .expr l r op _ true =>
-    (match (if l.isAddress then r else l), (if l.isAddress then l.int? else r.int?) with
-     | .numeric k _ _ nn, some t =>
-       (match addrIntOf as t with
-        | some a =>
-          (op == '+' && decide (-32768 ≤ (a : Int) + signedK k nn) && decide ((a : Int) + signedK k nn + D ≤ 65535))
-            || op == '-'
-        | none => false)
-     | _, _ => false)
+def movedModRefB (D : Nat) (as : List Stmt) (s : Stmt) : Bool :=
+  !(s.operand.kind == .relative) && !s.pkg.needsRes && field4B s && modExprB D as s.operand.value
+
+theorem movedModRefB_sound {D : Nat} {as : List Stmt} {s : Stmt} (h : movedModRefB D as s = true) :
+    MovedModRef D as s := by
+  unfold movedModRefB at h
+  simp only [Bool.and_eq_true, Bool.not_eq_true'] at h
+  obtain ⟨⟨⟨hk, hn⟩, hf⟩, he⟩ := h
+  exact ⟨hk, hn, field4B_sound hf, modExprB_sound he⟩
+
+def isPyNoneV : Value → Bool
+  | .pyNone => true
   | _ => false
 
-def movedModB (D : Nat) (as : List Stmt) (s : Stmt) : Bool :=
-  !(s.operand.kind == .relative) && !s.pkg.needsRes && field4B s && modExprB D as s.operand.value
+theorem isPyNoneV_false {v : Value} (h : isPyNoneV v = false) : v ≠ .pyNone := by
+  intro hv; rw [hv] at h; cases h
+
+/-- (repair batch B3) `label ± N` as constant offset of a pointer register -/
+def movedModAbsB (D : Nat) (as : List Stmt) (s : Stmt) : Bool :=
+  !(s.operand.kind == .relative) && !isPyNoneV s.operand.value && !s.operand.value.isAddrExpr &&
+  !s.operand.value.isAddress && s.pkg.needsRes && s.pkg.choices.isEmpty && s.isIdx && field4B s &&
+  modExprB D as s.pkg.additional
+
+theorem movedModAbsB_sound {D : Nat} {as : List Stmt} {s : Stmt} (h : movedModAbsB D as s = true) :
+    MovedModAbs D as s := by
+  unfold movedModAbsB at h
+  simp only [Bool.and_eq_true, Bool.not_eq_true'] at h
+  obtain ⟨⟨⟨⟨⟨⟨⟨⟨hk, hv⟩, hE⟩, hA⟩, hn⟩, hc⟩, hidx⟩, hf⟩, he⟩ := h
+  exact ⟨hk, isPyNoneV_false hv, hE, hA, hn, hc, hidx, field4B_sound hf, modExprB_sound he⟩
+
+def movedModB (D : Nat) (as : List Stmt) (s : Stmt) : Bool := movedModRefB D as s || movedModAbsB D as s
 
 theorem movedModB_sound {D : Nat} {as : List Stmt} {s : Stmt} (h : movedModB D as s = true) : MovedMod D as s := by
   unfold movedModB at h
-  simp only [Bool.and_eq_true, Bool.not_eq_true'] at h
-  obtain ⟨⟨⟨hk, hn⟩, hf⟩, he⟩ := h
-  refine ⟨hk, hn, field4B_sound hf, ?_⟩
-  unfold modExprB at he
-  split at he
-  · rename_i l r op m hv
-    split at he
-    · rename_i k hh mm nn t ho hi
-      split at he
-      · rename_i a ha
-        refine ⟨l, r, op, m, t, a, k, nn, hv, ⟨⟨hh, mm, ho⟩, hi, ha⟩, ?_⟩
-        simp only [Bool.or_eq_true, Bool.and_eq_true, beq_iff_eq, decide_eq_true_eq] at he
-        rcases he with ⟨⟨h1, h2⟩, h3⟩ | h1
-        · exact .inl ⟨h1, h2, h3⟩
-        · exact .inr h1
-      · cases he
-    · cases he
-  · cases he
+  rcases Bool.or_eq_true _ _ |>.mp h with h | h
+  · exact .inl (movedModRefB_sound h)
+  · exact .inr (movedModAbsB_sound h)
 
 /-- every statement of the list is in one of the three classes -/
 def coverModB (D : Nat) (as : List Stmt) : Bool :=
@@ -202,6 +278,57 @@ theorem coverModB_sound {D : Nat} {as : List Stmt} (h : coverModB D as = true) :
   · exact .inl (unmovedB_sound h1)
   · exact .inr (.inl (movedB_sound h1))
   · exact .inr (.inr (movedModB_sound h1))
+
+/-! ### the fourth class (`number - label`), executable -/
+
+def negExprB (as : List Stmt) (e : Value) : Bool :=
+  match e with
+  | .expr (.numeric k _ _ nn) r op _ true =>
+    op == '-' && r.isAddress &&
+    (match r.int? with
+     | some t => (match addrIntOf as t with
+                  | some a => decide (signedK k nn - (a : Int) ≤ 65535)
+                  | none => false)
+     | none => false)
+  | _ => false
+
+def movedNegB (as : List Stmt) (s : Stmt) : Bool :=
+  !(s.operand.kind == .relative) && !s.pkg.needsRes && field4B s && negExprB as s.operand.value
+
+theorem movedNegB_sound {as : List Stmt} {s : Stmt} (h : movedNegB as s = true) : MovedNeg as s := by
+  unfold movedNegB at h
+  simp only [Bool.and_eq_true, Bool.not_eq_true'] at h
+  obtain ⟨⟨⟨hk, hn⟩, hf⟩, he⟩ := h
+  refine ⟨hk, hn, field4B_sound hf, ?_⟩
+  unfold negExprB at he
+  split at he
+  · rename_i k hh mm nn r op m hv
+    simp only [Bool.and_eq_true, beq_iff_eq] at he
+    obtain ⟨⟨rfl, hlab⟩, he⟩ := he
+    split at he
+    · rename_i t hi
+      split at he
+      · rename_i a ha
+        exact ⟨_, r, m, t, a, k, nn, hv, ⟨⟨hh, mm, rfl⟩, hlab, hi, ha⟩, by simpa using he⟩
+      · cases he
+    · cases he
+  · cases he
+
+/-- every statement of the list is in one of the four classes -/
+def coverNegB (D : Nat) (as : List Stmt) : Bool :=
+  as.all (fun s => unmovedB D as s || movedB D as s || movedModB D as s || movedNegB as s)
+
+theorem coverNegB_sound {D : Nat} {as : List Stmt} (h : coverNegB D as = true) :
+    ∀ (i : Nat) (s : Stmt), as[i]? = some s →
+      Unmoved D as s ∨ Moved D as s ∨ MovedMod D as s ∨ MovedNeg as s := by
+  intro i s hs
+  have := List.all_eq_true.mp h s (List.mem_of_getElem? hs)
+  simp only [Bool.or_eq_true] at this
+  rcases this with ((h1 | h1) | h1) | h1
+  · exact .inl (unmovedB_sound h1)
+  · exact .inr (.inl (movedB_sound h1))
+  · exact .inr (.inr (.inl (movedModB_sound h1)))
+  · exact .inr (.inr (.inr (movedNegB_sound h1)))
 
 /-! ### the statement list that enters `fixAll` -/
 
